@@ -394,6 +394,37 @@ def observed_module(modname: str) -> types.ModuleType:
     return mod
 
 
+class patch_observed:
+    """Context manager: while active, the shape terms' membership/tsukamoto and the hedges' hedge methods of the REAL
+    classes are replaced by the observer clones' functions (same source, with `**`, exp, log, cos, power recording).
+    /repo is not touched; everything is restored on exit."""
+
+    def __init__(self):
+        self.saved = []
+
+    def __enter__(self):
+        import importlib
+
+        for modname, methods in (("term", ("membership", "tsukamoto")), ("hedge", ("hedge",))):
+            real = importlib.import_module(f"fuzzylite.{modname}")
+            obs = observed_module(modname)
+            for name, cls in list(vars(real).items()):
+                if isinstance(cls, type) and cls.__module__ == real.__name__ and hasattr(obs, name):
+                    if name in ("Term", "Activated", "Aggregated", "Linear", "Function", "Discrete", "Hedge", "HedgeLambda", "HedgeFunction"):
+                        continue
+                    for m in methods:
+                        if m in vars(cls):
+                            self.saved.append((cls, m, vars(cls)[m]))
+                            setattr(cls, m, vars(getattr(obs, name))[m])
+        return self
+
+    def __exit__(self, *exc):
+        for cls, m, f in self.saved:
+            setattr(cls, m, f)
+        self.saved = []
+        return False
+
+
 def oracle_lit(table) -> str:
     return coq_list(f"({t}%nat, {fhex(a)}, {fhex(b)}, {fhex(r)})" for t, a, b, r in table)
 
